@@ -14,9 +14,12 @@ JudgeEv(k, e) ==
                         <<"AdjAccepted", MonAAccepted(e)>> >>)
          /\ Drift(k, ConformsAdjust(e), "adjust")
     [] e.op = "with_prices" ->
-         /\ Judge(k, << <<"NoPanic", MonNoPanic(e)>>, <<"Cleared", MonWCleared(e)>>, <<"Accepted", MonWAccepted(e)>>,
+         /\ Judge(k, << <<"NoPanic", MonNoPanic(e)>>, <<"Cleared", MonWCleared(e)>>, <<"Count", MonWCount(e)>>, <<"Expected", MonWExpected(e)>>,
+                        <<"WellFormed", MonWWellFormed(e)>>, <<"Fresh", MonWFresh(e)>>, <<"InBand", MonWInBand(e)>>,
+                        <<"Spread", MonWSpread(e)>>,
                         <<"Result", MonWResult(e)>> >>)
          /\ Drift(k, ConformsWith(e), e.err)
+         /\ (~e.called \/ Emit("STAT", [i |-> k, what |-> "accepted"]))
 Next ==
   /\ i < NRec
   /\ i' = i + 1
